@@ -124,7 +124,7 @@ class C07(Check):
                 ('sqlite-decl', 'the 14 other declared type names of the '
                                 'type map, 0..2 rows'),
                 ('pd-two', 'two-column DataFrames (ordered family pairs, '
-                           '2 rows, 3-value sub-alphabets)'),
+                           '2 rows, %d-value sub-alphabets)' % (R,)),
                 ('sqlite-two', 'two-column SQLite tables, 2 rows')]
 
     def cases(self, tier, layer):
@@ -151,11 +151,12 @@ class C07(Check):
             fams = FA.BASE_FAMILIES + (FA.EXTRA_FAMILIES if thorough else [])
             pairs = [('a', 'b c'), ('min', 'a')] if thorough \
                 else [('a', 'b c')]
-            for fr in FA.two_column_frames(fams, 2, pairs, 3):
+            for fr in FA.two_column_frames(fams, 2, pairs,
+                                           4 if thorough else 3):
                 yield {'src': 'pd', 'frame': fr}
         elif layer == 'sqlite-two':
             decls = list(SQL_DECL.items())
-            nv = 4 if thorough else 3
+            nv = 5 if thorough else 3
             for (d1, k1) in decls:
                 for (d2, k2) in decls:
                     for t1 in itertools.product(SQL_VALUES[k1][:nv],
